@@ -86,3 +86,13 @@ Print Assumptions C07_forward_step_is_code.
 Theorem C07_reverse_step_is_code : forall d p k st c, rev_step_code d p k st c = rev_step d p k false st c.
 Proof. exact rev_step_tie. Qed.
 Print Assumptions C07_reverse_step_is_code.
+
+(* the whole forward scan (entry slot of the hour index + every step) as the source writes it now *)
+Theorem C07_forward_scan_is_code : forall d p k, fwd_scan_code d p k = fwd_scan d p k false.
+Proof. exact fwd_scan_tie. Qed.
+Print Assumptions C07_forward_scan_is_code.
+
+(* the whole reverse scan (entry slot of the hour index + every step) as the source writes it now *)
+Theorem C07_reverse_scan_is_code : forall d p k, rev_scan_code d p k = rev_scan d p k false.
+Proof. exact rev_scan_tie. Qed.
+Print Assumptions C07_reverse_scan_is_code.
